@@ -187,4 +187,32 @@ theorem C07_stream_error_kept :
     errIs (streamAnyC fixed [⟨pt12.take 5, none⟩, ⟨[], some .eof⟩, ⟨pt12.drop 5, none⟩] .custom).res (.reader .eof) = true := by
   decide +kernel
 
+/-! ### goroutine stack -/
+
+/-- **C07_wkb_stack_frames.** `wkb.Decode` never needs more than `len/9 + 1` nested `Read` frames: run
+with THAT recursion budget the decoder returns exactly what `wkb.Decode` returns (geometry or error,
+never the budget fault) — every nesting level costs a 5-byte header and a 4-byte count. -/
+theorem C07_wkb_stack_frames (bs : Bytes) :
+    C05.decode bs = (C05.read (bs.length / 9 + 1) bs).map (·.1) ∧
+    C05.read (bs.length / 9 + 1) bs ≠ .error .fuel := by
+  have hne := C07_wkb_depth (bs.length / 9 + 1) bs (by omega)
+  refine ⟨?_, hne⟩
+  have := C05.Fuel.read_fuel_mono_le bs (show bs.length / 9 + 1 ≤ bs.length + 1 by omega) hne
+  simp only [C05.decode, this]
+
+/-- **C07_wkb_stack_spec.** … hence, with the measured frame size (512 bytes per level, stack
+doubling included), the goroutine stack stays within the bound the specification demands
+(128·len + 1 MiB) for EVERY input. -/
+theorem C07_wkb_stack_spec (n : Nat) : Spec.stackOK n (stackModel n) = true := by
+  have : 512 * (n / 9 + 1) ≤ 128 * n + 1048576 := by omega
+  simp only [Spec.stackOK, Spec.stackBound, stackModel, frameBytes]
+  exact decide_eq_true this
+
+/-- the depth bound is attained: a chain of `k` nested one-member collections (9 bytes each) closed
+by an empty collection needs `k + 1` frames -/
+example : (match C05.read 2 [1,7,0,0,0,1,0,0,0, 1,7,0,0,0,1,0,0,0, 1,7,0,0,0,0,0,0,0] with
+      | .error e => decide (e = .fuel) | .ok _ => false) = true ∧
+    (C05.read 3 [1,7,0,0,0,1,0,0,0, 1,7,0,0,0,1,0,0,0, 1,7,0,0,0,0,0,0,0]).toBool = true := by
+  decide +kernel
+
 end GeomV.C07
